@@ -287,7 +287,7 @@ class Executor:
                     b = parse()
                     if s[pos:pos + 4] == " as ":
                         pos += 4
-                        m = re.match(r"[A-Za-z0-9_]+", s[pos:])
+                        m = re.match(r"[A-Za-z0-9_#]+", s[pos:])
                         pos += m.end()
                         assert s[pos] == ")", s
                         pos += 1
@@ -422,9 +422,9 @@ class Executor:
         m = re.match(r'^"(.*)"$', t)
         if m:
             return VOpaque(z3.Int("str:" + m.group(1)), "&str")
-        m = re.match(r"^.*::(\w+)::promoted\[(\d+)\]$", t)
+        m = re.match(r"^.*::promoted\[(\d+)\]$", t)
         if m and getattr(self, "cur_frame", None) is not None:
-            pf = self.funcs.get(self.cur_frame["func"].name + f"::promoted[{m.group(2)}]")
+            pf = self.funcs.get(self.cur_frame["func"].name + f"::promoted[{m.group(1)}]")
             if pf is not None:
                 return self.eval_promoted(path, pf)
         # unit-like enum variants / consts / fn items: opaque but stable
@@ -452,6 +452,8 @@ class Executor:
             return copy.deepcopy(v)
         if t.startswith("const "):
             return self.const(path, t[6:], ty)
+        if re.match(r"^[A-Za-z_<][\w:<>, &']*$", t) and "(" not in t:
+            return VUnknown("fnitem:" + t, ty)  # zero-sized fn item / constructor passed as a value
         raise Stop("operand: " + text)
 
     BIN = r"^(AddWithOverflow|SubWithOverflow|MulWithOverflow|AddUnchecked|SubUnchecked|MulUnchecked|ShlUnchecked|ShrUnchecked|Add|Sub|Mul|Div|Rem|BitXor|BitAnd|BitOr|Shl|Shr|Eq|Lt|Le|Ne|Ge|Gt|Cmp|Offset)\((.*)\)$"
